@@ -5,32 +5,46 @@ package main
 import (
 	"context"
 	"fmt"
+	"strings"
 
-	"github.com/sourcenetwork/defradb/client"
 	vnode "github.com/sourcenetwork/defradb/internal/verifharness/node"
 )
 
 func main() {
 	ctx := context.Background()
-	for k := 0; k < 6; k++ {
-		n, err := vnode.NewMem(ctx)
-		if err != nil {
-			panic(err)
-		}
-		_, err = n.DB.AddSchema(ctx, `type G { a: String
- b: String }`)
-		if err != nil {
-			panic(err)
-		}
-		col, _ := n.DB.GetCollectionByName(ctx, "G")
-		for _, js := range []string{fmt.Sprintf(`{"a": "x_%d_y", "b": "z"}`, k), fmt.Sprintf(`{"a": "x", "b": "y_%d_z"}`, k)} {
-			d, _ := client.NewDocFromJSON([]byte(js), col.Definition())
-			if err := col.Create(ctx, d); err != nil {
-				panic(err)
-			}
-		}
-		r := n.DB.ExecRequest(ctx, `query { G(groupBy: [a, b]) { a b _count(_group: {}) } }`)
-		fmt.Println(k, r.GQL.Data, r.GQL.Errors)
-		n.Close()
+	n, err := vnode.NewMem(ctx)
+	if err != nil {
+		panic(err)
 	}
+	defer n.Close()
+	var fs []string
+	for i := 1; i <= 25; i++ {
+		fs = append(fs, fmt.Sprintf("f%02d: Int", i))
+	}
+	_, err = n.DB.AddSchema(ctx, "type T { "+strings.Join(fs, "\n ")+" }")
+	if err != nil {
+		panic(err)
+	}
+	var in []string
+	for i := 1; i <= 25; i++ {
+		in = append(in, fmt.Sprintf("f%02d: %d", i, i))
+	}
+	r := n.DB.ExecRequest(ctx, "mutation { create_T(input: {"+strings.Join(in, ", ")+"}) { _docID } }")
+	id := r.GQL.Data.(map[string]any)["create_T"].([]map[string]any)[0]["_docID"].(string)
+	fmt.Println(id, r.GQL.Errors)
+	for k := 0; k < 3; k++ {
+		r = n.DB.ExecRequest(ctx, fmt.Sprintf(`mutation { update_T(docID: "%s", input: {f20: %d, f22: %d}) { _docID } }`, id, 100+k, 200+k))
+		fmt.Println("update", r.GQL.Errors)
+	}
+	for i := 1; i <= 25; i++ {
+		f := fmt.Sprintf("f%02d", i)
+		r = n.DB.ExecRequest(ctx, fmt.Sprintf(`query { latestCommits(docID: "%s", fieldName: "%s") { height fieldName } }`, id, f))
+		fmt.Println(f, r.GQL.Data, r.GQL.Errors)
+	}
+	r = n.DB.ExecRequest(ctx, fmt.Sprintf(`mutation { update_T(docID: "%s", input: {f01: 999}) { _docID } }`, id))
+	fmt.Println("update f01", r.GQL.Errors)
+	r = n.DB.ExecRequest(ctx, fmt.Sprintf(`query { commits(docID: "%s", fieldName: "f01") { height fieldName links { name } heads: links { cid } } }`, id))
+	fmt.Println("f01 commits", r.GQL.Data, r.GQL.Errors)
+	r = n.DB.ExecRequest(ctx, fmt.Sprintf(`query { T(docID: "%s") { f01 f20 f22 } }`, id))
+	fmt.Println(r.GQL.Data, r.GQL.Errors)
 }
